@@ -256,6 +256,20 @@ func valueStream(rng *lib.Rng, nData, nJSON int) {
 		&V{K: 'H'}, &V{K: 'H', Keys: []*V{{K: 'S', S: "a b"}}, Items: []*V{{K: 'I', I: 1}}},
 		&V{K: 'H', Keys: []*V{{K: 'S', S: "a\"b"}}, Items: []*V{{K: 'I', I: 1}}},
 		&V{K: 'H', Keys: []*V{{K: 'Y', S: "k"}}, Items: []*V{{K: 'H', Keys: []*V{{K: 'S', S: "n"}}, Items: []*V{{K: 'A'}}}}})
+	// an exponent sign at every offset of the lexer's 20-rune look-back ring, after padding symbols of every length
+	for k := 0; k < 44; k++ {
+		for _, f := range []float64{1e21, -5e-324, 2.5e-10} {
+			items := []*V{}
+			if k > 0 {
+				items = append(items, &V{K: 'Y', S: strings.Repeat("a", k)})
+			}
+			items = append(items, &V{K: 'F', F: f, Sci: true}, &V{K: 'I', I: -int64(k)})
+			grid = append(grid, &V{K: 'A', Items: items})
+		}
+	}
+	for _, key := range []string{"a\\b", "\\", "x\\n", "q\"r", "tab\there", "nl\nx", "a b", "é", ":", "k:"} {
+		grid = append(grid, &V{K: 'H', Keys: []*V{{K: 'S', S: key}}, Items: []*V{{K: 'I', I: 1}}})
+	}
 	for _, v := range grid {
 		js := true
 		if v.K == 'F' {
